@@ -186,7 +186,9 @@ def byte_string(rng, n, p):
         return 'ff', b'\xff' * n
     if c < 0.6 and n > 0:
         base = rng.choice([p - 1, p, p + 1, R - 1, R, p * (R // p), (r - 1) * ((1 << 512) // (r - 1)), (1 << 512) - 1,
-                           p * ((1 << 512) // p), p * ((1 << 512) // p) - 1, r - 1, r - 2])
+                           p * ((1 << 512) // p), p * ((1 << 512) // p) - 1, r - 1, r - 2,
+                           # upper half equal to the modulus (or to r-1, the modulus of from_hash)
+                           (p << 256) + rng.getrandbits(256), p << 256, ((r - 1) << 256) + rng.getrandbits(250), ((p - 1) << 256) + rng.getrandbits(256)])
         v = base % (1 << (8 * n))
         return 'boundary', v.to_bytes(n, 'big')
     if c < 0.68 and n >= 32:
@@ -240,15 +242,18 @@ def gen_C13(rng, n):
         out.append(('fr.from_hash:boundary', f'fr.from_hash {hb((hv % (1 << (8*ln))).to_bytes(ln, "big"))}'))
         # 512-bit division
         m = rng.choice([q, r, r - 1])
-        nv = rng.choice([m * m - 1, m * (m - 1), m * R - 1, (1 << 512) - 1, m, m - 1, 0, rng.randrange(1 << 512), m * rng.randrange(m)])
+        nv = rng.choice([m * m - 1, m * (m - 1), m * R - 1, (1 << 512) - 1, m, m - 1, 0, rng.randrange(1 << 512), m * rng.randrange(m),
+                         # the upper 256 bits equal to / adjacent to the modulus (a quotient digit decided by a tie on the high half)
+                         (m << 256) + rng.getrandbits(256), m << 256, ((m - 1) << 256) + rng.getrandbits(256), ((m + 1) << 256) + rng.getrandbits(255)])
         out.append((f'u512.divrem', f'u512.divrem {nv % (1 << 512):0128x} {h32(m)}'))
         # scripted RNG, including constant streams
         c = rng.random()
         if c < 0.3:
             w = [rng.choice([0, 2**64 - 1, 1])] * 8
             lab = 'constant-stream'
-        elif c < 0.5:
-            v = rng.choice([r, r - 1, 2 * r, r * ((1 << 512) // r)])
+        elif c < 0.6:
+            v = rng.choice([r, r - 1, 2 * r, r * ((1 << 512) // r), (r << 256) + rng.getrandbits(256), r << 256,
+                            ((r - 1) << 256) + rng.getrandbits(256)])
             w = [(v >> (64 * i)) & (2**64 - 1) for i in range(8)]
             lab = 'multiple-of-r'
         else:
